@@ -53,6 +53,9 @@ PATH_POOL = [
     ("'a\\x7fb'", False), ("'a\\x85b'", False), ("5", False), ("None", False), ("3.5", False), ("object()", False), ("b'bytes.txt'", False),
     ("['ok.txt', '']", False), ("{'k': 'ok.txt', 'bad': 'x\\ry'}", False), ("['ok.txt', Path('ok2.txt')]", True), ("[['nested.txt'], ('tup.txt',)]", True),
     ("Path('')", None),
+    ("'reads.fq\\n'", False), ("'\\tx.txt'", False), ("'a.txt\\r\\n'", False), ("'\\x00start'", False), ("'end\\x7f'", False), ("Path('p.txt\\n')", False),
+    ("{'reads': 'r.fq', 'adapters': ''}", False), ("[{'a': 'x.txt'}, {'b': ''}]", False), ("{'outer': {'inner': ''}}", False), ("{'k': ['ok.txt', '']}", False),
+    ("' '", None), ("'x.txt '", True),
 ]
 
 
